@@ -34,7 +34,10 @@ pub struct Obs {
     pub all_time: [u128; 2],
     pub burned: [u128; 2],
     pub pair_bal: [u128; 3],
+    /// balances of the fee collector the pool is configured with
     pub collector: [u128; 3],
+    /// balances of the other collector address (configured earlier, or never)
+    pub other_collector: [u128; 3],
     pub users: Vec<[u128; 3]>,
     pub users_lp: Vec<u128>,
     pub lp_pair: u128,
@@ -62,7 +65,8 @@ pub fn observe(s: &Pool2) -> Result<Obs, String> {
         all_time: [pick(&fa.fees, 0), pick(&fa.fees, 1)],
         burned: [pick(&fb.fees, 0), pick(&fb.fees, 1)],
         pair_bal: three(&s.pair),
-        collector: three(COLLECTOR),
+        collector: three(&s.collector_now),
+        other_collector: three(if s.collector_now == COLLECTOR { COLLECTOR2 } else { COLLECTOR }),
         users: (0..n).map(|i| three(USERS[i])).collect(),
         users_lp: (0..n).map(|i| s.lp_bal(USERS[i])).collect(),
         lp_pair: s.lp_bal(&s.pair),
@@ -290,6 +294,9 @@ fn others_untouched(ctx: &mut Ctx, prop: &str, before: &Obs, after: &Obs, touche
     }
     if !collector_may_change && before.collector != after.collector {
         ctx.fail(prop, "third_party_untouched", "collector", None, format!("{opname}: collector balances changed"));
+    }
+    if before.other_collector != after.other_collector {
+        ctx.fail("C07", "nothing_else_moves", "unconfigured_collector_paid", None, format!("{opname}: the balances of a collector address the pool is not configured with changed {:?} -> {:?}", before.other_collector, after.other_collector));
     }
 }
 
@@ -632,6 +639,33 @@ pub fn apply(s: &mut Pool2, step: &Step, ctx: &mut Ctx) {
             ctx.trace(&format!("set_fees:{}", r.outcome.kind()));
             global_invariants(s, ctx, &before, &after, r.outcome.is_ok(), "set_fees");
             others_untouched(ctx, "C01", &before, &after, &[], false, "set_fees");
+        }
+        Op::SetCollector { second } => {
+            let before = match observe(s) { Ok(o) => o, Err(e) => { ctx.fail("C01", "solvency", "queries_fail", None, e); return; } };
+            let target = if *second { COLLECTOR2 } else { COLLECTOR };
+            let msg = wasm_exec(
+                &s.factory,
+                &white_whale_std::pool_network::factory::ExecuteMsg::UpdatePairConfig { pair_addr: s.pair.clone(), owner: None, fee_collector_addr: Some(target.to_string()), pool_fees: None, feature_toggle: None },
+                vec![],
+            );
+            let r = tx(&mut s.app, OWNER, vec![msg], Fault::None);
+            ctx.op("set_collector", r.outcome.kind());
+            ctx.trace(&format!("set_collector:{target}:{}", r.outcome.kind()));
+            let prev = s.collector_now.clone();
+            if r.outcome.is_ok() {
+                s.collector_now = target.to_string();
+                ctx.probe("collector_repointed");
+            }
+            let after = match observe(s) { Ok(o) => o, Err(e) => { ctx.fail("C01", "solvency", "queries_fail", None, e); return; } };
+            // re-pointing the collector moves nothing: compare like with like
+            let (c_after, o_after) = if prev == s.collector_now { (after.collector, after.other_collector) } else { (after.other_collector, after.collector) };
+            ctx.eval("C07");
+            if c_after != before.collector || o_after != before.other_collector || after.pair_bal != before.pair_bal || after.pending != before.pending || after.reserves != before.reserves {
+                ctx.fail("C07", "nothing_else_moves", "set_collector_moved_funds", None, format!("re-pointing the fee collector changed balances or ledgers: pending {:?} -> {:?}, pool {:?} -> {:?}", before.pending, after.pending, before.pair_bal, after.pair_bal));
+            }
+            if !r.outcome.is_ok() {
+                ctx.fail("C07", "collector_update", "owner_update_refused", None, format!("the owner's fee collector update failed: {}", r.outcome.err_text()));
+            }
         }
         Op::Donate { side, amount } => {
             let side = *side % 2;
